@@ -129,6 +129,10 @@ class Futures:
         if done in self.snap:
             self.snap.discard(done)
             shutil.copytree(self.rundir, f"{self.rundir}.snap{done}")
+            # the snapshot is the disk state a kill at this moment leaves: say so in *its* log
+            with open(f"{self.rundir}.snap{done}/{LOG}", "a") as f:
+                f.write(json.dumps({"ev": "kill", "after_step": done, "in_flight": [x.idx for x in self.l],
+                                    "leg": self.rec.leg, "snapshot": True}) + "\n")
         if self.kill_at is not None and done >= self.kill_at:
             self.rec.write({"ev": "kill", "after_step": done, "in_flight": [f.idx for f in self.l]})
             raise StopLeg()
@@ -257,6 +261,10 @@ def leg_in_child(op):
         code = 0
         try:
             os.close(r)
+            # whatever an engine prints must not reach the server's line protocol
+            dn = os.open(os.devnull, os.O_WRONLY)
+            os.dup2(dn, 1)
+            os.dup2(dn, 2)
             try:
                 res = run_leg(op)
             except BaseException as e:  # noqa: BLE001
